@@ -1,8 +1,9 @@
 ---- MODULE MC_two ----
 EXTENDS MC
-\* a two-target rule whose targets depend on different sources (sel), with a dependent of its second target
-mcOrd == <<"d", "s1", "s2", "t1", "t2">>
-mcMenu == << << Rl(<<"d">>, <<"t2">>, "fn", "c2"), Rl(<<"t1", "t2">>, <<"s1", "s2">>, "sel", "c1") >>,
-             << Rl(<<"d">>, <<"t2">>, "fn", "c2"), MkRule(<<"t1", "t2">>, <<"s1", "s2">>, "sel", "c1", 0, <<>>, TRUE, FALSE) >> >>
+\* a two-target rule whose targets depend on different sources (sel), with a dependent of its second target; one target lives in a
+\* directory and its sibling's name extends the directory's name, so the parser's bundle order differs from the sorted order
+mcOrd == <<"d", "s1", "s2", "o.s", "o/x">>
+mcMenu == << << Rl(<<"d">>, <<"o/x">>, "fn", "c2"), Rl(<<"o.s", "o/x">>, <<"s1", "s2">>, "sel", "c1") >>,
+             << Rl(<<"d">>, <<"o/x">>, "fn", "c2"), MkRule(<<"o.s", "o/x">>, <<"s1", "s2">>, "sel", "c1", 0, <<>>, TRUE, FALSE) >> >>
 mcInit == << <<"s1", "S0">>, <<"s2", "S0">> >>
 ====
